@@ -313,6 +313,10 @@ func c08(c *ctx) {
 		}
 	}
 	o.stat("virtual_time_scripts", nScripts)
+	// (1b) handshakes arriving while a clean-up pass runs (own subprocess)
+	if err := runChild(c, "C08race"); err != nil {
+		panic(err)
+	}
 
 	// (2) altered copies of an accepted packet, presented afterwards
 	keys := newServerKeys(r)
